@@ -68,6 +68,9 @@ class C11R(SchedProp):
         'CylcModel.C11R.restart_keeps_history',
         'CylcModel.C11R.restart_flowwait_counterexample',
         'CylcModel.C11R.restart_outputs_counterexample',
+        'CylcModel.C11R.restart_instances_live',
+        'CylcModel.C11R.restart_instances_counterexample',
+        'CylcModel.C11R.restart_instances_repaired',
         'CylcModel.C11R.final_mem_run',
     ]
     statement_note = (
@@ -75,8 +78,10 @@ class C11R(SchedProp):
         'task_outputs rows with their write queue + restart, a line-by-line port) for all instance graphs and all op lists. '
         'PROVED: rows_invariant - in every state of every run no instance is pooled twice and every pooled proxy has the '
         'database rows of exactly its flow numbers (committed or queued), given the repaired _load_historical_outputs (flag '
-        'dbRowPerFlowSet probed from the live code; proved primitive by primitive as an instance of the generic pool-shape '
-        'invariant shared with C26S). restart_keeps_instances - stop + restart at ANY point of ANY run (main loops, '
+        'dbRowPerFlowSet probed from the live code: the three theorems below take `dbRowPerFlowSet = true` as a hypothesis; '
+        'restart_instances_live / _counterexample / _repaired state per flag value that on the unrepaired code - finding '
+        'set-db-row-missing - a restart DROPS a pooled task whose flows overlap an older row, kernel-checked witness; proved '
+        'primitive by primitive as an instance of the generic pool-shape invariant shared with C26S). restart_keeps_instances - stop + restart at ANY point of ANY run (main loops, '
         'messages, holds, `cylc set` with any --flow / --wait, earlier restarts) yields a pool with exactly the same task '
         'instances: nothing pending is lost, nothing invented. restart_restores - for every pooled proxy x of every '
         'reachable state the restarted pool has y at x\'s key with x\'s flow numbers, prerequisite and suicide-prerequisite '
